@@ -6,6 +6,7 @@ import (
 	"fmt"
 	"sort"
 	"sync"
+	"sync/atomic"
 	"time"
 
 	"github.com/IBM/TSS/threshold"
@@ -272,8 +273,15 @@ func (r *orchRun) tables() obj {
 }
 
 // wait for the next signal of call c (or for nothing, when the model expects the call to stay where it is)
+// circuit breaker: a tree on which expected signals do not arrive (every such wait costs 3 s) must not turn the check into hours;
+// once a process has waited in vain 12 times the remaining waits are short (the verdict is already decided by then)
+var orchVainWaits int32
+
 func (r *orchRun) await(c int, expect string) (got, res string) {
 	timeout := 3 * time.Second
+	if atomic.LoadInt32(&orchVainWaits) >= 12 {
+		timeout = 150 * time.Millisecond
+	}
 	if expect == "none" {
 		timeout = 40 * time.Millisecond
 	}
@@ -287,6 +295,9 @@ func (r *orchRun) await(c int, expect string) (got, res string) {
 			// a signal of another call (e.g. a zombie): report it as part of this step
 			return fmt.Sprintf("other:%d:%s", s.c, s.what), s.res
 		case <-deadline:
+			if expect != "none" {
+				atomic.AddInt32(&orchVainWaits, 1)
+			}
 			return "none", ""
 		}
 	}
